@@ -181,6 +181,64 @@ func init() {
 			ss := stmtStrings(ex, fd.Body)
 			ex.setBool("c07ReuseNewConnAfterCloseRejected", contains(ss, "if t.closed { t.m.Unlock() return nil }"), true, "a connection whose dial finishes after Close is not registered (and is closed by the caller)")
 		}
+		if fd := ex.fn(rrel, "ReuseConnTransport", "newReusableConn"); fd != nil {
+			// is the closed flag tested inside the critical section that registers the freshly dialed connection?
+			iLock, iCheck, iInsert, iUnlock := -1, -1, -1, -1
+			for i, st := range fd.Body.List {
+				str := ex.str(st)
+				ifs, isIf := st.(*ast.IfStmt)
+				switch {
+				case str == "t.m.Lock()" && iLock < 0:
+					iLock = i
+				case str == "t.m.Unlock()" && iInsert >= 0 && iUnlock < 0:
+					iUnlock = i
+				case isIf && strings.Contains(ex.str(ifs.Cond), "t.closed") && iLock >= 0 && iInsert < 0 && iCheck < 0:
+					iCheck = i
+				case strings.Contains(str, "t.conns[rc] = struct{}{}") && iInsert < 0:
+					iInsert = i
+				}
+			}
+			ex.setBool("c07ReuseClosedCheckedUnderLock", iLock >= 0 && iLock < iCheck && iCheck < iInsert && iInsert < iUnlock, iLock >= 0 && iInsert >= 0 && iUnlock >= 0,
+				"newReusableConn: t.closed is tested after t.m.Lock() and the connection is registered before the t.m.Unlock() that follows (one critical section with the flag Close sets under t.m)")
+		}
+		// ---- reading one frame: deadline calls made between the reader's arming and the end of the frame
+		{
+			var codes []string
+			known := false
+			scan := func(fd *ast.FuncDecl) {
+				if fd == nil || fd.Body == nil {
+					return
+				}
+				ast.Inspect(fd.Body, func(n ast.Node) bool {
+					ce, ok := n.(*ast.CallExpr)
+					if !ok {
+						return true
+					}
+					se, ok := ce.Fun.(*ast.SelectorExpr)
+					if !ok || !strings.HasPrefix(se.Sel.Name, "Set") || !strings.HasSuffix(se.Sel.Name, "Deadline") || se.Sel.Name == "SetWriteDeadline" {
+						return true
+					}
+					code := "1"
+					if len(ce.Args) == 1 && ex.str(ce.Args[0]) == "time.Time{}" {
+						code = "0"
+					}
+					codes = append(codes, code)
+					return true
+				})
+			}
+			if fd := ex.fn("pkg/dnsutils/net_io.go", "", "ReadRawMsgFromTCP"); fd != nil {
+				known = true
+				scan(fd)
+			}
+			scan(ex.fn("pkg/dnsutils/net_io.go", "", "ReadMsgFromTCP"))
+			scan(ex.fn(trel, "TraditionalDnsConn", "readResp"))
+			if known {
+				ex.setRaw("c07FrameReadDeadlineCalls", "List Nat", "["+strings.Join(codes, ", ")+"]",
+					"read-deadline calls made while a frame is being read (dnsutils.ReadRawMsgFromTCP / ReadMsgFromTCP, TraditionalDnsConn.readResp), in source order: 0 = the deadline is cleared (zero time), 1 = a deadline is set")
+			} else {
+				ex.setRaw("c07FrameReadDeadlineCalls", "List Nat", "[0]", "unknown: dnsutils.ReadRawMsgFromTCP not found")
+			}
+		}
 		// ---- dialing wrapper and pipeline transport
 		if fd := ex.fn(lrel, "lazyDnsConnEarlyReservedExchanger", "ExchangeReserved"); fd != nil {
 			ex.setBool("c07LazyWaitCoversAll", selectCases(ex, fd.Body, false) == "<-ctx.Done() | <-ote.dialFinished", true,
